@@ -866,6 +866,25 @@ def _reverse_then_iterate(fn):
             body = getattr(parent, fld, None)
             if not (isinstance(body, list) and body and isinstance(body[0], ast.stmt)):
                 continue
+            # while xs: yield xs.pop()   ->   for t in reversed(xs): yield t      (xs a once-bound local not read afterwards)
+            for k, w in enumerate(body):
+                if isinstance(w, ast.While) and isinstance(w.test, ast.Name) and not w.orelse and len(w.body) == 1 \
+                        and isinstance(w.body[0], ast.Expr) and isinstance(w.body[0].value, ast.Yield) \
+                        and isinstance(w.body[0].value.value, ast.Call) and isinstance(w.body[0].value.value.func, ast.Attribute) \
+                        and w.body[0].value.value.func.attr == 'pop' and not w.body[0].value.value.args \
+                        and isinstance(w.body[0].value.value.func.value, ast.Name) and w.body[0].value.value.func.value.id == w.test.id:
+                    x = w.test.id
+                    later = sum(_count_loads_in(s_, x) for s_ in body[k + 1:])
+                    bound_here = any(isinstance(s_, ast.Assign) and any(isinstance(t, ast.Name) and t.id == x for t in s_.targets) for s_ in body[:k])
+                    if x not in declared and stores.get(x, 0) == 1 and later == 0 and bound_here:
+                        tv = f'{x}__item'
+                        new = ast.For(target=ast.Name(id=tv, ctx=ast.Store()),
+                                      iter=ast.Call(func=ast.Name(id='reversed', ctx=ast.Load()), args=[ast.Name(id=x, ctx=ast.Load())], keywords=[]),
+                                      body=[ast.Expr(value=ast.Yield(value=ast.Name(id=tv, ctx=ast.Load())))], orelse=[])
+                        for n_ in ast.walk(new):
+                            if isinstance(n_, (ast.stmt, ast.expr)):
+                                ast.copy_location(n_, w)
+                        body[k] = new
             k = 0
             while k + 1 < len(body):
                 a, b = body[k], body[k + 1]
